@@ -39,15 +39,27 @@ theorem asm_decode {a : Arch} {i : Instr} {w : Bits} (h : Encode.asm a i = .ok w
 
 
 
-/-- the simulation relation (non-blocking fragment): program counter ↔ position through `A`,
-    register file and output ports cell by cell, input ports as the environment presents them -/
+/-- the blocking-IO part of the simulation relation, over the fields it speaks about (so that it
+    survives record updates of the other fields): the environment's valid / recv flags as the
+    simulator's port vectors show them, output-valid and input-recv flags cell by cell, the same
+    pending `recv` withdrawals -/
+structure IoSim (a : Arch) (e : Env) (rov rir : Nat → Bool) (rdf : List Nat)
+    (viv vov vir vor : List Bool) (vdf : List Nat) : Prop where
+  iv : Agrees viv e.inValid a.n
+  orr : Agrees vor e.outRecv a.m
+  ov : Agrees vov rov a.m
+  ir : Agrees vir rir a.n
+  df : vdf = rdf
+  dlt : ∀ i ∈ rdf, i < a.n
+
+/-- the simulation relation: program counter ↔ position through `A`, register file and output
+    ports cell by cell, input ports as the environment presents them, handshake state -/
 structure Sim (a : Arch) (e : Env) (A : Nat → Nat) (r : RefState) (vm : VmState) : Prop where
   pc : vm.pc = A r.pos
   regs : Agrees vm.regs r.regs (2 ^ a.r)
   outs : Agrees vm.outputs r.outputs a.m
   ins : Agrees vm.inputs e.inputs a.n
-  rdef : r.deferred = []
-  vdef : vm.deferred = []
+  io : IoSim a e r.outValid r.inRecv r.deferred vm.inValid vm.outValid vm.inRecv vm.outRecv vm.deferred
 
 theorem std64 {n : Nat} (h : Isa.stdSize n = true) : n ≤ 64 := by
   simp only [Isa.stdSize, Bool.or_eq_true, beq_iff_eq] at h; omega
@@ -88,6 +100,46 @@ theorem isa_i2r {v : Nat} (hv : vm.inputs[Isa.field body a.r a.inBits]? = some v
 theorem isa_r2o {v : Nat} (hv : vm.regs[Isa.field body 0 a.r]? = some v) (ho : Isa.field body a.r a.outBits < vm.outputs.length) :
     Isa.exec a plen "r2o" body vm = some { vm with pc := vm.pc + 1, outputs := vm.outputs.set (Isa.field body a.r a.outBits) v } := by
   simp [Isa.exec, hv, ho]
+
+theorem isa_i2rw_take {v : Nat} (hiv : vm.inValid[Isa.field body a.r a.inBits]? = some true)
+    (hv : vm.inputs[Isa.field body a.r a.inBits]? = some v) (hir : vm.inRecv[Isa.field body a.r a.inBits]? = some false)
+    (hk : Isa.field body 0 a.r < vm.regs.length) :
+    Isa.exec a plen "i2rw" body vm =
+      some { vm with pc := vm.pc + 1, regs := vm.regs.set (Isa.field body 0 a.r) v,
+                     inRecv := vm.inRecv.set (Isa.field body a.r a.inBits) true,
+                     deferred := if Isa.field body a.r a.inBits ∈ vm.deferred then vm.deferred
+                                 else vm.deferred ++ [Isa.field body a.r a.inBits] } := by
+  simp [Isa.exec, hiv, hv, hir, hk]
+
+theorem isa_i2rw_wait {v : Nat} (hiv : vm.inValid[Isa.field body a.r a.inBits]? = some true)
+    (hv : vm.inputs[Isa.field body a.r a.inBits]? = some v) (hir : vm.inRecv[Isa.field body a.r a.inBits]? = some true) :
+    Isa.exec a plen "i2rw" body vm = some vm := by
+  simp [Isa.exec, hiv, hv, hir]
+
+theorem isa_i2rw_idle {v : Nat} (hiv : vm.inValid[Isa.field body a.r a.inBits]? = some false)
+    (hv : vm.inputs[Isa.field body a.r a.inBits]? = some v) :
+    Isa.exec a plen "i2rw" body vm = some { vm with inRecv := vm.inRecv.set (Isa.field body a.r a.inBits) false } := by
+  simp [Isa.exec, hiv, hv]
+
+theorem isa_r2owa_wait {v : Nat} (hv : vm.regs[Isa.field body 0 a.r]? = some v)
+    (hrc : vm.outRecv[Isa.field body a.r a.outBits]? = some true) (hov : vm.outValid[Isa.field body a.r a.outBits]? = some false) :
+    Isa.exec a plen "r2owa" body vm = some vm := by
+  simp [Isa.exec, hv, hrc, hov]
+
+theorem isa_r2owa_done {v : Nat} (hv : vm.regs[Isa.field body 0 a.r]? = some v)
+    (hrc : vm.outRecv[Isa.field body a.r a.outBits]? = some true) (hov : vm.outValid[Isa.field body a.r a.outBits]? = some true)
+    (ho : Isa.field body a.r a.outBits < vm.outputs.length) :
+    Isa.exec a plen "r2owa" body vm =
+      some { vm with outputs := vm.outputs.set (Isa.field body a.r a.outBits) v,
+                     outValid := vm.outValid.set (Isa.field body a.r a.outBits) false, pc := vm.pc + 1 } := by
+  simp [Isa.exec, hv, hrc, hov, ho]
+
+theorem isa_r2owa_raise {v : Nat} (hv : vm.regs[Isa.field body 0 a.r]? = some v)
+    (hrc : vm.outRecv[Isa.field body a.r a.outBits]? = some false) (ho : Isa.field body a.r a.outBits < vm.outputs.length) :
+    Isa.exec a plen "r2owa" body vm =
+      some { vm with outputs := vm.outputs.set (Isa.field body a.r a.outBits) v,
+                     outValid := vm.outValid.set (Isa.field body a.r a.outBits) true } := by
+  simp [Isa.exec, hv, hrc, ho]
 
 end isa
 
@@ -203,6 +255,26 @@ theorem vm_r2o {k o : Nat} (h : Encode.asm a ⟨"r2o", [.reg k, .out o]⟩ = .ok
   rw [← hf.2] at ho ⊢
   exact isa_r2o hv ho
 
+theorem fields_ri {op : String} (hop : op = "i2r" ∨ op = "i2rw") {k i : Nat}
+    (h : Encode.asm a ⟨op, [.reg k, .inp i]⟩ = .ok w) :
+    Isa.field (w.drop a.opBits) 0 a.r = k ∧ Isa.field (w.drop a.opBits) a.r a.inBits = i ∧ k < 2 ^ a.r ∧ i < a.n := by
+  have hl : layout op = some [.reg, .inp] ∧ lenientArity op = false := by rcases hop with rfl | rfl <;> decide
+  obtain ⟨hf, _⟩ := asm_fields h (fs := [.reg, .inp]) hl.1 hl.2
+  have hb := (BMV.Props.C03.asm_rejects_bad_index a _ w h 1 [.reg, .inp] hl.1).2.1 i (by simp) (by simp [normalise, hl.2])
+  rw [dec_ri] at hf
+  simp only [List.cons.injEq, Operand.reg.injEq, Operand.inp.injEq, and_true] at hf
+  exact ⟨hf.1, hf.2, by rw [← hf.1]; exact field_lt _ _ _, hb⟩
+
+theorem fields_ro {op : String} (hop : op = "r2o" ∨ op = "r2owa") {k o : Nat}
+    (h : Encode.asm a ⟨op, [.reg k, .out o]⟩ = .ok w) :
+    Isa.field (w.drop a.opBits) 0 a.r = k ∧ Isa.field (w.drop a.opBits) a.r a.outBits = o ∧ k < 2 ^ a.r ∧ o < a.m := by
+  have hl : layout op = some [.reg, .out] ∧ lenientArity op = false := by rcases hop with rfl | rfl <;> decide
+  obtain ⟨hf, _⟩ := asm_fields h (fs := [.reg, .out]) hl.1 hl.2
+  have hb := (BMV.Props.C03.asm_rejects_bad_index a _ w h 1 [.reg, .out] hl.1).2.2 o (by simp) (by simp [normalise, hl.2])
+  rw [dec_ro] at hf
+  simp only [List.cons.injEq, Operand.reg.injEq, Operand.out.injEq, and_true] at hf
+  exact ⟨hf.1, hf.2, by rw [← hf.1]; exact field_lt _ _ _, hb⟩
+
 end vm
 
 
@@ -236,9 +308,37 @@ theorem execLine_movout {c : SecCtx} {e : Env} {l : Line} {r r' : RefState} {k o
   simp only [hop, hargs] at hex
   split at hex <;> simp_all [ioKind]
 
+theorem execLine_i2rw {c : SecCtx} {e : Env} {l : Line} {r r' : RefState} {k i : Nat} (hop : l.op = "i2rw")
+    (hargs : l.args = [.reg k, .inp i]) (hex : execLine c e l r = some r') :
+    r' = execIo e (skip c.lines (r.pos + 1)) r (.inSync, k, i) := by
+  unfold execLine at hex
+  simp only [hop, hargs] at hex
+  split at hex <;> simp_all [ioKind]
+
+theorem execLine_r2owa {c : SecCtx} {e : Env} {l : Line} {r r' : RefState} {k o : Nat} (hop : l.op = "r2owa")
+    (hargs : l.args = [.reg k, .out o]) (hex : execLine c e l r = some r') :
+    r' = execIo e (skip c.lines (r.pos + 1)) r (.outSync, k, o) := by
+  unfold execLine at hex
+  simp only [hop, hargs] at hex
+  split at hex <;> simp_all [ioKind]
+
+theorem execLine_movin_sync {c : SecCtx} {e : Env} {l : Line} {r r' : RefState} {k i : Nat} (hop : l.op = "mov")
+    (hargs : l.args = [.reg k, .inp i]) (hmd : c.mode = some .sync) (hex : execLine c e l r = some r') :
+    r' = execIo e (skip c.lines (r.pos + 1)) r (.inSync, k, i) := by
+  unfold execLine at hex
+  simp only [hop, hargs] at hex
+  split at hex <;> simp_all [ioKind]
+
+theorem execLine_movout_sync {c : SecCtx} {e : Env} {l : Line} {r r' : RefState} {k o : Nat} (hop : l.op = "mov")
+    (hargs : l.args = [.out o, .reg k]) (hmd : c.mode = some .sync) (hex : execLine c e l r = some r') :
+    r' = execIo e (skip c.lines (r.pos + 1)) r (.outSync, k, o) := by
+  unfold execLine at hex
+  simp only [hop, hargs] at hex
+  split at hex <;> simp_all [ioKind]
+
 /-- where the reference interpreter can be after one line: the next instruction, or a label's -/
 def PosNext (c : SecCtx) (r r' : RefState) : Prop :=
-  r'.pos = skip c.lines (r.pos + 1) ∨ ∃ t, labelPos c.lines t = some r'.pos
+  r'.pos = skip c.lines (r.pos + 1) ∨ (∃ t, labelPos c.lines t = some r'.pos) ∨ r'.pos = r.pos
 
 /-- MATCHER EFFECT (non-blocking fragment).  One source line `l`, the real instruction the matcher
     resolved it to (`matchLine`), its assembled word `w`: executing the word on the simulator does
@@ -248,7 +348,6 @@ def PosNext (c : SecCtx) (r r' : RefState) : Prop :=
 theorem exec_matches {a : Arch} {c : SecCtx} {e : Env} {A : Nat → Nat} {plen : Nat} {l : Line} {op : String}
     {args : List Arg} {tbl : List (String × Nat)} {w : Bits} {r r' : RefState} {vm : VmState}
     (hm : matchLine c.mode l = some (op, args))
-    (hasync : op ≠ "i2rw" ∧ op ≠ "r2owa")
     (hasm : Encode.asm a ⟨op, args.map (resolveArg tbl)⟩ = .ok w)
     (hmode : a.mode = .ha) (hrs : a.rsize = c.rsize)
     (hsim : Sim a e A r vm)
@@ -257,15 +356,15 @@ theorem exec_matches {a : Arch} {c : SecCtx} {e : Env} {A : Nat → Nat} {plen :
     (hex : execLine c e l r = some r') :
     ∃ vm', Isa.exec a plen op (w.drop a.opBits) vm = some vm' ∧ Sim a e A r' vm' ∧ PosNext c r r' := by
   have hrs' : c.rsize = a.rsize := hrs.symm
-  obtain ⟨hpc, hregs, houts, hins, hrd, hvd⟩ := hsim
+  obtain ⟨hpc, hregs, houts, hins, hio⟩ := hsim
   have regGet : ∀ k, k < 2 ^ a.r → vm.regs[k]? = some (r.regs k) := fun k hk => hregs.get hk
   have mkSim : ∀ (k v : Nat), Sim a e A { r with pos := skip c.lines (r.pos + 1), regs := upd r.regs k v }
       { vm with pc := vm.pc + 1, regs := vm.regs.set k v } :=
-    fun k v => ⟨hnext.symm, hregs.set k v, houts, hins, hrd, hvd⟩
+    fun k v => ⟨hnext.symm, hregs.set k v, houts, hins, hio⟩
   have simNext : Sim a e A { r with pos := skip c.lines (r.pos + 1) } { vm with pc := vm.pc + 1 } :=
-    ⟨hnext.symm, hregs, houts, hins, hrd, hvd⟩
+    ⟨hnext.symm, hregs, houts, hins, hio⟩
   have simJump : ∀ p, Sim a e A { r with pos := p } { vm with pc := A p } :=
-    fun p => ⟨rfl, hregs, houts, hins, hrd, hvd⟩
+    fun p => ⟨rfl, hregs, houts, hins, hio⟩
   -- the three IO-free shapes and the two async IO shapes, each for whatever source spelling
   have caseRset : ∀ k n, Encode.asm a ⟨"rset", [.reg k, .num n]⟩ = .ok w →
       (if a.rsize ≤ 64 then some ({ r with pos := skip c.lines (r.pos + 1), regs := upd r.regs k n } : RefState) else none) = some r' →
@@ -294,7 +393,7 @@ theorem exec_matches {a : Arch} {c : SecCtx} {e : Env} {A : Nat → Nat} {plen :
       subst hx
       obtain ⟨hva, hvl⟩ := hlab t p v hp hv
       simp only [resolveArg, hv] at h
-      refine ⟨_, vm_j h hmode hvl, ?_, Or.inr ⟨t, hp⟩⟩
+      refine ⟨_, vm_j h hmode hvl, ?_, Or.inr (Or.inl ⟨t, hp⟩)⟩
       rw [hva]; exact simJump p
   have caseI2r : ∀ k i, Encode.asm a ⟨"i2r", [.reg k, .inp i]⟩ = .ok w →
       r' = execIo e (skip c.lines (r.pos + 1)) r (.inAsync, k, i) →
@@ -310,7 +409,77 @@ theorem exec_matches {a : Arch} {c : SecCtx} {e : Env} {A : Nat → Nat} {plen :
     subst hx
     obtain ⟨hk, ho, hexec⟩ := vm_r2o (plen := plen) (vm := vm) h
     exact ⟨_, hexec _ (regGet k hk) (by rw [houts.1]; exact ho),
-      ⟨hnext.symm, hregs, houts.set o _, hins, hrd, hvd⟩, Or.inl rfl⟩
+      ⟨hnext.symm, hregs, houts.set o _, hins, hio⟩, Or.inl rfl⟩
+  have caseI2rw : ∀ k i, Encode.asm a ⟨"i2rw", [.reg k, .inp i]⟩ = .ok w →
+      r' = execIo e (skip c.lines (r.pos + 1)) r (.inSync, k, i) →
+      ∃ vm', Isa.exec a plen "i2rw" (w.drop a.opBits) vm = some vm' ∧ Sim a e A r' vm' ∧ PosNext c r r' := by
+    intro k i h hx
+    obtain ⟨hf0, hf1, hk, hi⟩ := fields_ri (Or.inr rfl) h
+    have hiv : vm.inValid[Isa.field (w.drop a.opBits) a.r a.inBits]? = some (e.inValid i) := by rw [hf1]; exact hio.iv.get hi
+    have hin : vm.inputs[Isa.field (w.drop a.opBits) a.r a.inBits]? = some (e.inputs i) := by rw [hf1]; exact hins.get hi
+    have hir : vm.inRecv[Isa.field (w.drop a.opBits) a.r a.inBits]? = some (r.inRecv i) := by rw [hf1]; exact hio.ir.get hi
+    have hkl : Isa.field (w.drop a.opBits) 0 a.r < vm.regs.length := by rw [hf0, hregs.1]; exact hk
+    subst hx
+    simp only [execIo]
+    cases hv : e.inValid i with
+    | false =>
+      rw [hv] at hiv
+      have hx := isa_i2rw_idle (a := a) (plen := plen) hiv hin
+      rw [hf1] at hx
+      refine ⟨_, hx, ⟨hpc, hregs, houts, hins, ⟨hio.iv, hio.orr, hio.ov, hio.ir.set i false, hio.df, hio.dlt⟩⟩, Or.inr (Or.inr ?_)⟩
+      simp
+    | true =>
+      rw [hv] at hiv
+      cases hr : r.inRecv i with
+      | true =>
+        rw [hr] at hir
+        have hx := isa_i2rw_wait (a := a) (plen := plen) hiv hin hir
+        refine ⟨_, hx, ?_, Or.inr (Or.inr ?_)⟩ <;> simp
+        exact ⟨hpc, hregs, houts, hins, hio⟩
+      | false =>
+        rw [hr] at hir
+        have hx := isa_i2rw_take (a := a) (plen := plen) hiv hin hir hkl
+        rw [hf0, hf1] at hx
+        refine ⟨_, hx, ?_, Or.inl ?_⟩ <;> simp
+        refine ⟨hnext.symm, hregs.set k _, houts, hins, ⟨hio.iv, hio.orr, hio.ov, hio.ir.set i true, by rw [hio.df], ?_⟩⟩
+        intro j hj
+        split at hj
+        · exact hio.dlt j hj
+        · rcases List.mem_append.mp hj with hj | hj
+          · exact hio.dlt j hj
+          · simp at hj; subst hj; exact hi
+  have caseR2owa : ∀ k o, Encode.asm a ⟨"r2owa", [.reg k, .out o]⟩ = .ok w →
+      r' = execIo e (skip c.lines (r.pos + 1)) r (.outSync, k, o) →
+      ∃ vm', Isa.exec a plen "r2owa" (w.drop a.opBits) vm = some vm' ∧ Sim a e A r' vm' ∧ PosNext c r r' := by
+    intro k o h hx
+    obtain ⟨hf0, hf1, hk, ho⟩ := fields_ro (Or.inr rfl) h
+    have hv : vm.regs[Isa.field (w.drop a.opBits) 0 a.r]? = some (r.regs k) := by rw [hf0]; exact regGet k hk
+    have hrc : vm.outRecv[Isa.field (w.drop a.opBits) a.r a.outBits]? = some (e.outRecv o) := by rw [hf1]; exact hio.orr.get ho
+    have hov : vm.outValid[Isa.field (w.drop a.opBits) a.r a.outBits]? = some (r.outValid o) := by rw [hf1]; exact hio.ov.get ho
+    have hol : Isa.field (w.drop a.opBits) a.r a.outBits < vm.outputs.length := by rw [hf1, houts.1]; exact ho
+    subst hx
+    simp only [execIo]
+    cases hr : e.outRecv o with
+    | false =>
+      rw [hr] at hrc
+      have hx := isa_r2owa_raise (a := a) (plen := plen) hv hrc hol
+      rw [hf1] at hx
+      refine ⟨_, hx, ?_, Or.inr (Or.inr ?_)⟩ <;> simp
+      exact ⟨hpc, hregs, houts.set o _, hins, ⟨hio.iv, hio.orr, hio.ov.set o true, hio.ir, hio.df, hio.dlt⟩⟩
+    | true =>
+      rw [hr] at hrc
+      cases hvo : r.outValid o with
+      | false =>
+        rw [hvo] at hov
+        have hx := isa_r2owa_wait (a := a) (plen := plen) hv hrc hov
+        refine ⟨_, hx, ?_, Or.inr (Or.inr ?_)⟩ <;> simp
+        exact ⟨hpc, hregs, houts, hins, hio⟩
+      | true =>
+        rw [hvo] at hov
+        have hx := isa_r2owa_done (a := a) (plen := plen) hv hrc hov hol
+        rw [hf1] at hx
+        refine ⟨_, hx, ?_, Or.inl ?_⟩ <;> simp
+        exact ⟨hnext.symm, hregs, houts.set o _, hins, ⟨hio.iv, hio.orr, hio.ov.set o false, hio.ir, hio.df, hio.dlt⟩⟩
   have caseUn : ∀ (op : String) (hop : op = "inc" ∨ op = "dec" ∨ op = "clr") (k : Nat) (f : Nat → Nat),
       Encode.asm a ⟨op, [.reg k]⟩ = .ok w → (∀ x, Isa.stdSize a.rsize = true → Isa.unop op a.rsize x = some (f x)) →
       (if Isa.stdSize a.rsize = true then some ({ r with pos := skip c.lines (r.pos + 1), regs := upd r.regs k (f (r.regs k)) } : RefState) else none) = some r' →
@@ -403,17 +572,21 @@ theorem exec_matches {a : Arch} {c : SecCtx} {e : Env} {A : Nat → Nat} {plen :
         refine ⟨_, hexec _ (regGet k hk), ?_⟩
         subst hex
         by_cases hz : r.regs k = 0
-        · simp only [hz, if_true]; rw [hva]; exact ⟨simJump p, Or.inr ⟨t, hp⟩⟩
+        · simp only [hz, if_true]; rw [hva]; exact ⟨simJump p, Or.inr (Or.inl ⟨t, hp⟩)⟩
         · simp only [hz, if_false]; exact ⟨simNext, Or.inl rfl⟩
     · cases hex
   case h_17 k i hop hargs =>   -- i2r
     simp only [Option.some.injEq, Prod.mk.injEq] at hm; obtain ⟨rfl, rfl⟩ := hm
     exact caseI2r k i (by simpa [resolveArg] using hasm) (execLine_i2r hop hargs hex)
-  case h_18 => simp only [Option.some.injEq, Prod.mk.injEq] at hm; exact absurd hm.1.symm hasync.1
+  case h_18 k i hop hargs =>   -- i2rw
+    simp only [Option.some.injEq, Prod.mk.injEq] at hm; obtain ⟨rfl, rfl⟩ := hm
+    exact caseI2rw k i (by simpa [resolveArg] using hasm) (execLine_i2rw hop hargs hex)
   case h_19 k o hop hargs =>   -- r2o
     simp only [Option.some.injEq, Prod.mk.injEq] at hm; obtain ⟨rfl, rfl⟩ := hm
     exact caseR2o k o (by simpa [resolveArg] using hasm) (execLine_r2o hop hargs hex)
-  case h_20 => simp only [Option.some.injEq, Prod.mk.injEq] at hm; exact absurd hm.1.symm hasync.2
+  case h_20 k o hop hargs =>   -- r2owa
+    simp only [Option.some.injEq, Prod.mk.injEq] at hm; obtain ⟨rfl, rfl⟩ := hm
+    exact caseR2owa k o (by simpa [resolveArg] using hasm) (execLine_r2owa hop hargs hex)
   case h_21 k i hop hargs =>   -- mov reg, input
     cases hmd : c.mode with
     | none => simp [hmd] at hm
@@ -423,7 +596,8 @@ theorem exec_matches {a : Arch} {c : SecCtx} {e : Env} {A : Nat → Nat} {plen :
         simp only [hmd, Option.some.injEq, Prod.mk.injEq] at hm; obtain ⟨rfl, rfl⟩ := hm
         exact caseI2r k i (by simpa [resolveArg] using hasm) (execLine_movin hop hargs hmd hex)
       | sync =>
-        simp only [hmd, Option.some.injEq, Prod.mk.injEq] at hm; exact absurd hm.1.symm hasync.1
+        simp only [hmd, Option.some.injEq, Prod.mk.injEq] at hm; obtain ⟨rfl, rfl⟩ := hm
+        exact caseI2rw k i (by simpa [resolveArg] using hasm) (execLine_movin_sync hop hargs hmd hex)
   case h_22 o k hop hargs =>   -- mov output, reg
     cases hmd : c.mode with
     | none => simp [hmd] at hm
@@ -433,7 +607,8 @@ theorem exec_matches {a : Arch} {c : SecCtx} {e : Env} {A : Nat → Nat} {plen :
         simp only [hmd, Option.some.injEq, Prod.mk.injEq] at hm; obtain ⟨rfl, rfl⟩ := hm
         exact caseR2o k o (by simpa [resolveArg] using hasm) (execLine_movout hop hargs hmd hex)
       | sync =>
-        simp only [hmd, Option.some.injEq, Prod.mk.injEq] at hm; exact absurd hm.1.symm hasync.2
+        simp only [hmd, Option.some.injEq, Prod.mk.injEq] at hm; obtain ⟨rfl, rfl⟩ := hm
+        exact caseR2owa k o (by simpa [resolveArg] using hasm) (execLine_movout_sync hop hargs hmd hex)
   case h_23 => cases hm
 
 
@@ -572,19 +747,39 @@ theorem skip_not_entry {ls : List Line} (hone : (ls.filter isEntry).length ≤ 1
 
 /-! ### one tick -/
 
-theorem refDeferred_nil (e : Env) (r : RefState) (h : r.deferred = []) : refDeferred e r = r := by
-  cases r; simp only at h; subst h; simp [refDeferred]
-
 theorem runDeferred_nil (vm : VmState) (h : vm.deferred = []) : Isa.runDeferred vm = vm := by
   cases vm; simp only at h; subst h; simp [Isa.runDeferred]
 
-/-- the hypotheses that make `ws` the ROM the (unchanged) pipeline assembles for the section `c` -/
-structure Assembled (c : SecCtx) (rs : List RLine) (a : Arch) (ws : List Bits) : Prop where
-  prep : ∃ ls', removeEntry c.lines = .ok ls' ∧ matchLines c.mode ls' = .ok rs
-  nodup : hasDup (allLabels c.lines) = false
-  arch : a = mkArch c.rsize rs
-  prog : asmAll a (resolve rs) = .ok ws
-  async : ∀ r ∈ rs, r.op ≠ "i2rw" ∧ r.op ≠ "r2owa"
+theorem foldl_set_agrees {α : Type} (v : α) (n : Nat) : ∀ (is : List Nat) (l : List α) (f : Nat → α),
+    Agrees l f n → Agrees (is.foldl (fun l i => l.set i v) l) (is.foldl (fun f i => upd f i v) f) n
+  | [], _, _, h => h
+  | i :: is, l, f, h => by
+    simp only [List.foldl_cons]
+    exact foldl_set_agrees v n is _ _ (h.set i v)
+
+/-- the pending `recv` withdrawals are processed alike on both sides -/
+theorem deferred_sim {a : Arch} {e : Env} {A : Nat → Nat} {r : RefState} {vm : VmState} (h : Sim a e A r vm) :
+    Sim a e A (refDeferred e r) (Isa.runDeferred vm) := by
+  obtain ⟨hpc, hregs, houts, hins, hio⟩ := h
+  have hdf : vm.deferred = r.deferred := hio.df
+  have hp1 : ∀ i ∈ r.deferred, decide (vm.inValid[i]? = some false) = (e.inValid i == false) := by
+    intro i hi
+    rw [hio.iv.get (hio.dlt i hi)]
+    cases e.inValid i <;> simp
+  have hp2 : ∀ i ∈ r.deferred, decide (vm.inValid[i]? ≠ some false) = (e.inValid i != false) := by
+    intro i hi
+    rw [hio.iv.get (hio.dlt i hi)]
+    cases e.inValid i <;> simp
+  have hf1 : vm.deferred.filter (fun i => decide (vm.inValid[i]? = some false)) = r.deferred.filter (fun i => e.inValid i == false) := by
+    rw [hdf]; exact List.filter_congr hp1
+  have hf2 : vm.deferred.filter (fun i => decide (vm.inValid[i]? ≠ some false)) = r.deferred.filter (fun i => e.inValid i != false) := by
+    rw [hdf]; exact List.filter_congr hp2
+  refine ⟨hpc, hregs, houts, hins, ?_⟩
+  simp only [Isa.runDeferred, refDeferred]
+  refine ⟨hio.iv, hio.orr, hio.ov, ?_, hf2, ?_⟩
+  · rw [hf1]; exact foldl_set_agrees false a.n _ _ _ hio.ir
+  · intro i hi
+    exact hio.dlt i (List.mem_filter.mp hi).1
 
 /-- positions the reference interpreter can be at: an instruction, or just past the last line -/
 def PosOk (ls : List Line) (p : Nat) : Prop := p ≤ ls.length ∧ ∀ l, ls[p]? = some l → isEntry l = false
@@ -603,10 +798,10 @@ theorem skip_le {ls : List Line} {p : Nat} (h : p ≤ ls.length) : skip ls p ≤
     have := (List.getElem?_eq_some_iff.mp hl).1
     simp only; split <;> omega
 
-theorem posOk_skip {ls ls' : List Line} (h : removeEntry ls = .ok ls') {p : Nat} (hp : p ≤ ls.length) : PosOk ls (skip ls p) :=
-  ⟨skip_le hp, fun l hl => skip_not_entry (removeEntry_one h) p l hl⟩
+theorem posOk_skip {ls : List Line} (h : (ls.filter isEntry).length ≤ 1) {p : Nat} (hp : p ≤ ls.length) : PosOk ls (skip ls p) :=
+  ⟨skip_le hp, fun l hl => skip_not_entry h p l hl⟩
 
-theorem posOk_label {ls ls' : List Line} (h : removeEntry ls = .ok ls') {t : String} {p : Nat}
+theorem posOk_label {ls : List Line} (h : (ls.filter isEntry).length ≤ 1) {t : String} {p : Nat}
     (hp : labelPos ls t = some p) : PosOk ls p := by
   unfold labelPos at hp
   cases hq : ls.findIdx? (fun l => l.labels.contains t) with
@@ -618,62 +813,82 @@ theorem posOk_label {ls ls' : List Line} (h : removeEntry ls = .ok ls') {t : Str
     have := (List.findIdx?_eq_some_iff_getElem.mp hq).1
     exact posOk_skip h (by omega)
 
-/-- LOCK STEP, one tick (non-blocking fragment, unchanged pipeline): if the reference interpreter
-    can make a step from `r`, the simulator makes the corresponding step on the assembled ROM from
-    every state related to `r`, and the two stay related. -/
-theorem step_correct_aux {c : SecCtx} {rs : List RLine} {a : Arch} {ws : List Bits} {e : Env}
-    {r r' : RefState} {vm : VmState} (hA : Assembled c rs a ws)
-    (hsim : Sim a e (addr c.lines) r vm) (hpos : PosOk c.lines r.pos) (hex : refStep c e r = some r') :
-    ∃ vm', Isa.step a ws vm = some vm' ∧ Sim a e (addr c.lines) r' vm' ∧ PosOk c.lines r'.pos := by
-  obtain ⟨⟨ls', hre, hml⟩, hnd, harch, hprog, hasync⟩ := hA
+/-- what the lock-step proof needs to know about how a section's lines were laid out in the ROM:
+    `δ` = 0, or 1 when the repaired pipeline placed a jump to the entry at address 0 -/
+structure Layout (c : SecCtx) (rs : List RLine) (δ : Nat) : Prop where
+  one : (c.lines.filter isEntry).length ≤ 1
+  line : ∀ p l, c.lines[p]? = some l → isEntry l = false →
+    ∃ r0 : RLine, rs[δ + addr c.lines p]? = some r0 ∧ matchLine c.mode l = some (r0.op, r0.args)
+  label : ∀ t p v, labelPos c.lines t = some p → lookup (labelTable rs) t = some v → v = δ + addr c.lines p ∧ v < rs.length
+  len : rs.length = δ + (c.lines.filter fun l => !isEntry l).length
+
+/-- the hypotheses that make `ws` the ROM assembled for the section `c` -/
+structure Assembled (c : SecCtx) (rs : List RLine) (a : Arch) (ws : List Bits) (δ : Nat) : Prop where
+  lay : Layout c rs δ
+  arch : a = mkArch c.rsize rs
+  prog : asmAll a (resolve rs) = .ok ws
+
+/-- LOCK STEP, one tick: if the reference interpreter can make a step from `r`, the simulator makes
+    the corresponding step on the assembled ROM from every state related to `r`, and the two stay
+    related.  Blocking and non-blocking instructions alike: where the handshake makes the
+    simulator wait, the reference interpreter waits too. -/
+theorem step_correct_aux {c : SecCtx} {rs : List RLine} {a : Arch} {ws : List Bits} {δ : Nat} {e : Env}
+    {r r' : RefState} {vm : VmState} (hA : Assembled c rs a ws δ)
+    (hsim : Sim a e (fun p => δ + addr c.lines p) r vm) (hpos : PosOk c.lines r.pos) (hex : refStep c e r = some r') :
+    ∃ vm', Isa.step a ws vm = some vm' ∧ Sim a e (fun p => δ + addr c.lines p) r' vm' ∧ PosOk c.lines r'.pos := by
+  obtain ⟨⟨hone, hline, hlabel, hlen⟩, harch, hprog⟩ := hA
   have hall := asmAll_ok hprog
   have hwl : ws.length = rs.length := by rw [← hall.length_eq, resolve_length]
-  have hrl : rs.length = (c.lines.filter fun l => !isEntry l).length := by
-    rw [matchLines_length hml, removeEntry_eq hre]
   unfold refStep at hex
-  rw [refDeferred_nil e r hsim.rdef] at hex
   unfold Isa.step
   have hpcle : ¬ vm.pc > ws.length := by
-    rw [hsim.pc, hwl, hrl]; exact Nat.not_lt.mpr (addr_le _ _)
+    rw [hsim.pc, hwl, hlen]
+    have := addr_le c.lines r.pos
+    omega
   simp only [hpcle, if_false]
-  rw [runDeferred_nil vm hsim.vdef]
-  cases hl : c.lines[r.pos]? with
+  have hsim1 := deferred_sim hsim
+  have hpos1 : (refDeferred e r).pos = r.pos := rfl
+  generalize refDeferred e r = r1 at hex hsim1 hpos1
+  generalize Isa.runDeferred vm = vm1 at hsim1
+  rw [← hpos1] at hpos
+  cases hl : c.lines[r1.pos]? with
   | none =>
     simp only [hl] at hex
     split at hex
     · rename_i hend
       cases hex
-      have hpc : vm.pc = ws.length := by rw [hsim.pc, hend, addr_length, hwl, hrl]
-      have : ws[vm.pc]? = none := by rw [hpc]; simp
+      have hpc : vm1.pc = ws.length := by rw [hsim1.pc, hwl, hlen, hend, addr_length]
+      have : ws[vm1.pc]? = none := by rw [hpc]; simp
       simp only [this]
-      exact ⟨vm, rfl, hsim, hpos⟩
+      exact ⟨vm1, rfl, hsim1, hpos⟩
     · cases hex
   | some l =>
     simp only [hl] at hex
     have hne : isEntry l = false := hpos.2 l hl
     simp only [hne, Bool.false_eq_true, if_false] at hex
-    obtain ⟨⟨r0, hr0, _, hm0⟩, _⟩ := label_after_entry_removal_aux hre hml hnd hl hne
-    have hi : (resolve rs)[addr c.lines r.pos]? = some ⟨r0.op, r0.args.map (resolveArg (labelTable rs))⟩ := by
+    obtain ⟨r0, hr0, hm0⟩ := hline _ l hl hne
+    have hi : (resolve rs)[δ + addr c.lines r1.pos]? = some ⟨r0.op, r0.args.map (resolveArg (labelTable rs))⟩ := by
       simp [resolve, hr0]
-    have hwlt : addr c.lines r.pos < ws.length := by
+    have hwlt : δ + addr c.lines r1.pos < ws.length := by
       rw [hwl]; exact (List.getElem?_eq_some_iff.mp hr0).1
-    have hw : ws[vm.pc]? = some ws[addr c.lines r.pos] := by
-      rw [hsim.pc]; exact List.getElem?_eq_getElem hwlt
+    have hw : ws[vm1.pc]? = some ws[δ + addr c.lines r1.pos] := by
+      rw [hsim1.pc]; exact List.getElem?_eq_getElem hwlt
     have hasm := hall.get _ _ _ hi (List.getElem?_eq_getElem hwlt)
     obtain ⟨idx, hidx, hid, _⟩ := BMV.Props.C03.opcode_numbering a _ _ hasm
     simp only [hw, hid, hidx]
-    have hplt : r.pos < c.lines.length := (List.getElem?_eq_some_iff.mp hl).1
-    obtain ⟨vm', hv1, hv2, hv3⟩ := exec_matches (plen := ws.length) hm0 (hasync r0 (List.mem_of_getElem? hr0)) hasm
-      (by rw [harch]; rfl) (by rw [harch]; rfl) hsim
-      (by rw [addr_skip, addr_succ hl, hsim.pc]; simp [hne])
+    have hplt : r1.pos < c.lines.length := (List.getElem?_eq_some_iff.mp hl).1
+    obtain ⟨vm', hv1, hv2, hv3⟩ := exec_matches (plen := ws.length) hm0 hasm
+      (by rw [harch]; rfl) (by rw [harch]; rfl) hsim1
+      (by rw [addr_skip, addr_succ hl, hsim1.pc]; simp [hne]; omega)
       (fun t p v hp hv => by
-        have := label_table_agrees hre hml hnd hp hv
+        have := hlabel t p v hp hv
         exact ⟨this.1, by rw [hwl]; exact this.2⟩)
       hex
     refine ⟨vm', hv1, hv2, ?_⟩
-    rcases hv3 with h | ⟨t, ht⟩
-    · rw [h]; exact posOk_skip hre (by omega)
-    · exact posOk_label hre ht
+    rcases hv3 with h | ⟨t, ht⟩ | h
+    · rw [h]; exact posOk_skip hone (by omega)
+    · exact posOk_label hone ht
+    · rw [h]; exact hpos
 
 
 /-! ### runs -/
@@ -693,8 +908,10 @@ structure StSim (a : Arch) (A : Nat → Nat) (r : RefState) (vm : VmState) : Pro
   pc : vm.pc = A r.pos
   regs : Agrees vm.regs r.regs (2 ^ a.r)
   outs : Agrees vm.outputs r.outputs a.m
-  rdef : r.deferred = []
-  vdef : vm.deferred = []
+  ov : Agrees vm.outValid r.outValid a.m
+  ir : Agrees vm.inRecv r.inRecv a.n
+  df : vm.deferred = r.deferred
+  dlt : ∀ i ∈ r.deferred, i < a.n
 
 theorem agrees_range_map {α : Type} (f : Nat → α) (n : Nat) : Agrees ((List.range n).map f) f n := by
   refine ⟨by simp, ?_⟩
@@ -708,42 +925,52 @@ theorem agrees_replicate {α : Type} (v : α) (n : Nat) : Agrees (List.replicate
 
 theorem StSim.toSim {a : Arch} {A : Nat → Nat} {r : RefState} {vm : VmState} (h : StSim a A r vm) (e : Env) :
     Sim a e A r (envVm a e vm) :=
-  ⟨h.pc, h.regs, h.outs, agrees_range_map _ _, h.rdef, h.vdef⟩
+  ⟨h.pc, h.regs, h.outs, agrees_range_map _ _, ⟨agrees_range_map _ _, agrees_range_map _ _, h.ov, h.ir, h.df, h.dlt⟩⟩
 
 theorem Sim.toSt {a : Arch} {e : Env} {A : Nat → Nat} {r : RefState} {vm : VmState} (h : Sim a e A r vm) : StSim a A r vm :=
-  ⟨h.pc, h.regs, h.outs, h.rdef, h.vdef⟩
+  ⟨h.pc, h.regs, h.outs, h.io.ov, h.io.ir, h.io.df, h.io.dlt⟩
 
-/-- LOCK STEP, every finite run (non-blocking fragment, unchanged pipeline, entry label on the
-    first instruction): whatever the reference interpreter does on the source for `t` ticks under
-    an environment stream, the simulator does on the assembled ROM, and the program counter,
-    every register and every output port agree after every tick. -/
-theorem run_correct_aux {c : SecCtx} {rs : List RLine} {a : Arch} {ws : List Bits} (hA : Assembled c rs a ws)
-    (hentry : entryFirst c.lines = true) (env : Nat → Env) :
+/-- the initial states are related as soon as the program counters are -/
+theorem init_stsim (a : Arch) (A : Nat → Nat) (p : Nat) (pc : Nat) (h : pc = A p) :
+    StSim a A { pos := p, regs := fun _ => 0, outputs := fun _ => 0, outValid := fun _ => false, inRecv := fun _ => false, deferred := [] }
+      { Isa.init a with pc := pc } :=
+  ⟨h, agrees_replicate 0 _, agrees_replicate 0 _, agrees_replicate false _, agrees_replicate false _, rfl, by intro i hi; cases hi⟩
+
+/-- the induction step shared by the two run theorems -/
+theorem run_step {c : SecCtx} {rs : List RLine} {a : Arch} {ws : List Bits} {δ : Nat} (hA : Assembled c rs a ws δ)
+    {e : Env} {r r' : RefState} {vm : VmState}
+    (hst : StSim a (fun p => δ + addr c.lines p) r vm) (hpos : PosOk c.lines r.pos) (hex : refStep c e r = some r') :
+    ∃ vm', Isa.step a ws (envVm a e vm) = some vm' ∧ StSim a (fun p => δ + addr c.lines p) r' vm' ∧ PosOk c.lines r'.pos := by
+  obtain ⟨vm', h1, h2, h3⟩ := step_correct_aux hA (hst.toSim e) hpos hex
+  exact ⟨vm', h1, h2.toSt, h3⟩
+
+theorem startPos_posOk {ls : List Line} (hone : (ls.filter isEntry).length ≤ 1) {p : Nat} (hs : startPos ls = some p) : PosOk ls p := by
+  unfold startPos at hs
+  split at hs
+  · split at hs
+    · exact posOk_label hone hs
+    · cases hs
+  · cases hs
+
+/-- LOCK STEP, every finite run, no jump placed at address 0 (`δ = 0`): the entry label's address
+    is 0 and both sides start there. -/
+theorem run_correct_zero {c : SecCtx} {rs : List RLine} {a : Arch} {ws : List Bits} (hA : Assembled c rs a ws 0)
+    (hentry : ∀ p, startPos c.lines = some p → addr c.lines p = 0) (env : Nat → Env) :
     ∀ (t : Nat) (r : RefState), refRun c env t = some r →
-      ∃ vm, isaRun a ws env t = some vm ∧ StSim a (addr c.lines) r vm ∧ PosOk c.lines r.pos := by
-  obtain ⟨ls', hre, _⟩ := hA.prep
+      ∃ vm, isaRun a ws env t = some vm ∧ StSim a (fun p => 0 + addr c.lines p) r vm ∧ PosOk c.lines r.pos := by
   intro t
   induction t with
   | zero =>
     intro r hr
     simp only [refRun, refInit] at hr
-    unfold entryFirst at hentry
     cases hs : startPos c.lines with
     | none => simp [hs] at hr
     | some p =>
       simp only [hs, Option.map_some, Option.some.injEq] at hr
-      simp only [hs, beq_iff_eq] at hentry
       subst hr
-      refine ⟨Isa.init a, rfl, ⟨?_, ?_, ?_, rfl, rfl⟩, ?_⟩
-      · simp [Isa.init, hentry]
-      · exact agrees_replicate 0 _
-      · exact agrees_replicate 0 _
-      · unfold startPos at hs
-        split at hs
-        · split at hs
-          · exact posOk_label hre hs
-          · cases hs
-        · cases hs
+      refine ⟨Isa.init a, rfl, ?_, startPos_posOk hA.lay.one hs⟩
+      have := init_stsim a (fun p => 0 + addr c.lines p) p 0 (by simp [hentry p hs])
+      simpa [Isa.init] using this
   | succ t ih =>
     intro r' hr'
     simp only [refRun] at hr'
@@ -752,9 +979,348 @@ theorem run_correct_aux {c : SecCtx} {rs : List RLine} {a : Arch} {ws : List Bit
     | some r =>
       simp only [hr, Option.bind_some] at hr'
       obtain ⟨vm, hvm, hst, hpos⟩ := ih r hr
-      obtain ⟨vm', h1, h2, h3⟩ := step_correct_aux hA (hst.toSim (env t)) hpos hr'
-      exact ⟨vm', by simp [isaRun, hvm, h1], h2.toSt, h3⟩
+      obtain ⟨vm', h1, h2, h3⟩ := run_step hA hst hpos hr'
+      exact ⟨vm', by simp [isaRun, hvm, h1], h2, h3⟩
 
+/-- the simulator's environment stream when one tick is spent on the jump at address 0: whatever
+    `e0` the ports show during that tick, then the reference interpreter's stream -/
+def delayEnv (e0 : Env) (env : Nat → Env) : Nat → Env
+  | 0 => e0
+  | k + 1 => env k
+
+/-- LOCK STEP, every finite run, with the jump the repaired pipeline places at address 0
+    (`δ = 1`): the simulator spends its first tick on that jump (the reference interpreter, which
+    starts at the entry label, does not move), then the two run in lock step, the simulator one
+    tick behind and every address one higher. -/
+theorem run_correct_one {c : SecCtx} {rs : List RLine} {a : Arch} {ws : List Bits} (hA : Assembled c rs a ws 1)
+    {s : String} (hj : rs[0]? = some ⟨[], "j", [.sym s]⟩) (hstart : startPos c.lines = labelPos c.lines s)
+    (e0 : Env) (env : Nat → Env) :
+    ∀ (t : Nat) (r : RefState), refRun c env t = some r →
+      ∃ vm, isaRun a ws (delayEnv e0 env) (t + 1) = some vm ∧ StSim a (fun p => 1 + addr c.lines p) r vm ∧ PosOk c.lines r.pos := by
+  intro t
+  induction t with
+  | zero =>
+    intro r hr
+    simp only [refRun, refInit] at hr
+    cases hs : startPos c.lines with
+    | none => simp [hs] at hr
+    | some p =>
+      simp only [hs, Option.map_some, Option.some.injEq] at hr
+      subst hr
+      obtain ⟨hlay, harch, hprog⟩ := hA
+      have hall := asmAll_ok hprog
+      have hwl : ws.length = rs.length := by rw [← hall.length_eq, resolve_length]
+      have hi : (resolve rs)[0]? = some ⟨"j", [resolveArg (labelTable rs) (.sym s)]⟩ := by simp [resolve, hj]
+      have hlt : 0 < ws.length := by rw [hwl]; exact (List.getElem?_eq_some_iff.mp hj).1
+      have hasm := hall.get _ _ _ hi (List.getElem?_eq_getElem hlt)
+      obtain ⟨idx, hidx, hid, _⟩ := BMV.Props.C03.opcode_numbering a _ _ hasm
+      obtain ⟨v, hv⟩ := resolved_of_asm (pre := []) (post := []) (by simpa using hasm) (by decide)
+      have hp : labelPos c.lines s = some p := by rw [← hstart]; exact hs
+      obtain ⟨hva, hvl⟩ := hlay.label s p v hp hv
+      simp only [resolveArg, hv] at hasm
+      have hexec := vm_j (plen := ws.length) (vm := envVm a e0 (Isa.init a)) hasm (by rw [harch]; rfl) (by rw [hwl]; exact hvl)
+      refine ⟨{ envVm a e0 (Isa.init a) with pc := v }, ?_, ?_, startPos_posOk hlay.one hs⟩
+      · simp only [isaRun, Option.bind_some, delayEnv]
+        unfold Isa.step
+        have h0 : (envVm a e0 (Isa.init a)).pc = 0 := rfl
+        have hd : (envVm a e0 (Isa.init a)).deferred = [] := rfl
+        simp only [h0, runDeferred_nil _ hd, Nat.not_lt_zero, gt_iff_lt, if_false, List.getElem?_eq_getElem hlt, hid, hidx]
+        exact hexec
+      · have := init_stsim a (fun p => 1 + addr c.lines p) p v hva
+        exact ⟨this.pc, this.regs, this.outs, this.ov, this.ir, this.df, this.dlt⟩
+  | succ t ih =>
+    intro r' hr'
+    simp only [refRun] at hr'
+    cases hr : refRun c env t with
+    | none => simp [hr] at hr'
+    | some r =>
+      simp only [hr, Option.bind_some] at hr'
+      obtain ⟨vm, hvm, hst, hpos⟩ := ih r hr
+      obtain ⟨vm', h1, h2, h3⟩ := run_step hA hst hpos hr'
+      refine ⟨vm', ?_, h2, h3⟩
+      show (isaRun a ws (delayEnv e0 env) (t + 1)).bind (fun vm => Isa.step a ws (envVm a (delayEnv e0 env (t + 1)) vm)) = some vm'
+      rw [hvm]; exact h1
+
+
+/-! ### the two pipelines lay a section out as `Layout` says -/
+
+theorem labelTable_cons_nolabel (r : RLine) (rs : List RLine) (h : r.labels = []) :
+    labelTable (r :: rs) = (labelTable rs).map (fun x => (x.1, x.2 + 1)) := by
+  unfold labelTable
+  rw [List.zipIdx_cons']
+  simp only [List.flatMap_cons, h, List.map_nil, List.nil_append, List.flatMap_map, List.map_flatMap, List.map_map]
+  congr 1
+
+theorem lookup_shift (tbl : List (String × Nat)) (t : String) :
+    lookup (tbl.map (fun x => (x.1, x.2 + 1))) t = (lookup tbl t).map (· + 1) := by
+  unfold lookup
+  induction tbl with
+  | nil => rfl
+  | cons x xs ih =>
+    simp only [List.map_cons, List.find?_cons]
+    by_cases hx : (x.1 == t) = true
+    · simp [hx]
+    · simp only [hx]; exact ih
+
+
+theorem filter_noentry_self : ∀ (ls : List Line), (ls.filter isEntry).length = 0 → (ls.filter fun l => !isEntry l) = ls
+  | [], _ => rfl
+  | x :: xs, h => by
+    by_cases hx : isEntry x = true
+    · simp [List.filter_cons, hx] at h
+    · have hx' : isEntry x = false := by simpa using hx
+      simp only [List.filter_cons, hx', Bool.false_eq_true, if_false] at h
+      simp only [List.filter_cons, hx', Bool.not_false, if_true]
+      rw [filter_noentry_self xs h]
+
+/-- `dropEntry` against the plain removal of the directive, line by line: same instructions, and
+    every label of a kept line is its own or one that was written on the directive just before it -/
+theorem dropEntry_pointwise : ∀ {ls ls' : List Line}, dropEntry ls = some ls' → (ls.filter isEntry).length ≤ 1 →
+    ls'.length = (ls.filter fun l => !isEntry l).length ∧
+    ∀ (i : Nat) (l' : Line), ls'[i]? = some l' → ∃ l : Line, (ls.filter fun l => !isEntry l)[i]? = some l ∧
+      l'.op = l.op ∧ l'.args = l.args ∧
+      ∀ t, t ∈ l'.labels → t ∈ l.labels ∨ ∃ (q : Nat) (e : Line), ls[q]? = some e ∧ isEntry e = true ∧ t ∈ e.labels ∧ addr ls q = i
+  | [], ls', h, _ => by
+    simp [dropEntry] at h; subst h
+    exact ⟨rfl, fun i l' hl => by simp at hl⟩
+  | x :: rest, ls', h, hone => by
+    simp only [dropEntry] at h
+    by_cases hx : isEntry x = true
+    · simp only [hx, if_true] at h
+      have hrest : (rest.filter isEntry).length = 0 := by
+        simp only [List.filter_cons, hx, if_true, List.length_cons] at hone; omega
+      have hF : ((x :: rest).filter fun l => !isEntry l) = rest := by
+        simp only [List.filter_cons, hx, Bool.not_true, Bool.false_eq_true, if_false]
+        exact filter_noentry_self rest hrest
+      rw [hF]
+      by_cases hl : x.labels.isEmpty = true
+      · simp only [hl, if_true, Option.some.injEq] at h; subst h
+        exact ⟨rfl, fun i l' hl' => ⟨l', hl', rfl, rfl, fun t ht => Or.inl ht⟩⟩
+      · simp only [hl] at h
+        cases rest with
+        | nil => simp at h
+        | cons n rest' =>
+          simp only [Bool.false_eq_true, if_false, Option.some.injEq] at h; subst h
+          refine ⟨by simp, ?_⟩
+          intro i l' hl'
+          cases i with
+          | zero =>
+            simp only [List.getElem?_cons_zero, Option.some.injEq] at hl'; subst hl'
+            refine ⟨n, by simp, rfl, rfl, ?_⟩
+            intro t ht
+            rcases List.mem_append.mp ht with ht | ht
+            · exact Or.inl ht
+            · exact Or.inr ⟨0, x, by simp, hx, ht, by simp [addr]⟩
+          | succ i =>
+            simp only [List.getElem?_cons_succ] at hl'
+            exact ⟨l', by simpa using hl', rfl, rfl, fun t ht => Or.inl ht⟩
+    · have hx' : isEntry x = false := by simpa using hx
+      simp only [hx', Bool.false_eq_true, if_false] at h
+      cases hd : dropEntry rest with
+      | none => simp [hd] at h
+      | some r =>
+        simp only [hd, Option.map_some, Option.some.injEq] at h; subst h
+        have hone' : (rest.filter isEntry).length ≤ 1 := by
+          simpa [List.filter_cons, hx'] using hone
+        obtain ⟨hlen, hpt⟩ := dropEntry_pointwise hd hone'
+        have hF : ((x :: rest).filter fun l => !isEntry l) = x :: (rest.filter fun l => !isEntry l) := by
+          simp [List.filter_cons, hx']
+        rw [hF]
+        refine ⟨by simp [hlen], ?_⟩
+        intro i l' hl'
+        cases i with
+        | zero =>
+          simp only [List.getElem?_cons_zero, Option.some.injEq] at hl'; subst hl'
+          exact ⟨x, by simp, rfl, rfl, fun t ht => Or.inl ht⟩
+        | succ i =>
+          simp only [List.getElem?_cons_succ] at hl'
+          obtain ⟨l, h1, h2, h3, h4⟩ := hpt i l' hl'
+          refine ⟨l, by simpa using h1, h2, h3, ?_⟩
+          intro t ht
+          rcases h4 t ht with h | ⟨q, e, hq, he, hte, hqa⟩
+          · exact Or.inl h
+          · refine Or.inr ⟨q + 1, e, by simpa using hq, he, hte, ?_⟩
+            simp only [addr, List.take_succ_cons, List.filter_cons, hx', Bool.not_false, if_true, List.length_cons]
+            simp only [addr] at hqa
+            omega
+
+
+theorem matchLine_congr (mode : Option IoMode) {l1 l2 : Line} (h1 : l1.op = l2.op) (h2 : l1.args = l2.args) :
+    matchLine mode l1 = matchLine mode l2 := by
+  unfold matchLine; rw [h1, h2]
+
+/-- unchanged pipeline: the directive is filtered out, nothing else moves -/
+theorem layout_unfixed {c : SecCtx} {ls' : List Line} {rs : List RLine} (hre : removeEntry c.lines = .ok ls')
+    (hml : matchLines c.mode ls' = .ok rs) (hnd : hasDup (allLabels c.lines) = false) : Layout c rs 0 := by
+  refine ⟨removeEntry_one hre, ?_, ?_, ?_⟩
+  · intro p l hl hne
+    obtain ⟨⟨r0, h1, _, h3⟩, _⟩ := label_after_entry_removal_aux hre hml hnd hl hne
+    exact ⟨r0, by simpa using h1, h3⟩
+  · intro t p v hp hv
+    have := label_table_agrees hre hml hnd hp hv
+    simpa using this
+  · rw [matchLines_length hml, removeEntry_eq hre]; simp
+
+/-- a label found on a line of `dropEntry`'s result is, at source level, the label of the
+    instruction with that address -/
+theorem label_pos_of_dropped {ls ls' : List Line} (hdrop : dropEntry ls = some ls') (hone : (ls.filter isEntry).length ≤ 1)
+    (hnd : hasDup (allLabels ls) = false) {t : String} {i : Nat} {l' : Line} (hl' : ls'[i]? = some l') (ht : t ∈ l'.labels)
+    {p : Nat} (hp : labelPos ls t = some p) : addr ls p = i := by
+  obtain ⟨_, hpt⟩ := dropEntry_pointwise hdrop hone
+  obtain ⟨l, hF, _, _, hlab⟩ := hpt i l' hl'
+  unfold labelPos at hp
+  cases hq : ls.findIdx? (fun l => l.labels.contains t) with
+  | none => rw [hq] at hp; simp at hp
+  | some q =>
+    rw [hq] at hp
+    simp only [Option.map_some, Option.some.injEq] at hp
+    obtain ⟨hql, hqt, _⟩ := List.findIdx?_eq_some_iff_getElem.mp hq
+    have hqt' : t ∈ ls[q].labels := by simpa [List.contains_iff_mem] using hqt
+    rcases hlab t ht with h | ⟨q', e, hq', he, hte, hqa⟩
+    · obtain ⟨p', hp1, hp2, hp3⟩ := filter_index_inv ls i l hF
+      have hqp : q = p' := line_label_unique hnd (List.getElem?_eq_getElem hql) hp1 hqt' h
+      subst hqp
+      have hsk : skip ls q = q := by unfold skip; rw [hp1]; simp [hp2]
+      rw [hsk] at hp; subst hp; exact hp3
+    · have hqq : q = q' := line_label_unique hnd (List.getElem?_eq_getElem hql) hq' hqt' hte
+      subst hqq
+      rw [← hp, addr_skip]; exact hqa
+
+/-- repaired pipeline, before the jump is considered: the directive is dropped and its labels move
+    to the next instruction -/
+theorem layout_dropped {c : SecCtx} {ls' : List Line} {rs : List RLine} (hdrop : dropEntry c.lines = some ls')
+    (hone : (c.lines.filter isEntry).length ≤ 1) (hml : matchLines c.mode ls' = .ok rs)
+    (hnd : hasDup (allLabels c.lines) = false) : Layout c rs 0 := by
+  obtain ⟨hlen, hpt⟩ := dropEntry_pointwise hdrop hone
+  have hrl := matchLines_length hml
+  refine ⟨hone, ?_, ?_, by rw [hrl, hlen]; simp⟩
+  · intro p l hl hne
+    have hF := filter_getElem?_addr c.lines p l hl hne
+    have hlt : addr c.lines p < ls'.length := by rw [hlen]; exact (List.getElem?_eq_some_iff.mp hF).1
+    obtain ⟨l2, hF2, hop, hargs, _⟩ := hpt _ _ (List.getElem?_eq_getElem hlt)
+    rw [hF] at hF2; cases hF2
+    obtain ⟨r0, hr0, _, hm⟩ := matchLines_get hml _ _ (List.getElem?_eq_getElem hlt)
+    exact ⟨r0, by simpa using hr0, by rw [← matchLine_congr c.mode hop hargs]; exact hm⟩
+  · intro t p v hp hv
+    have hlt := lookup_lt hv
+    obtain ⟨r0, hr0, ht0⟩ := mem_labelTable.mp (lookup_mem hv)
+    have hv' : v < ls'.length := by omega
+    obtain ⟨r1, hr1, hlab1, _⟩ := matchLines_get hml v ls'[v] (List.getElem?_eq_getElem hv')
+    rw [hr0] at hr1; cases hr1
+    have := label_pos_of_dropped hdrop hone hnd (List.getElem?_eq_getElem hv') (by rw [← hlab1]; exact ht0) hp
+    exact ⟨by simp [this], hlt⟩
+
+/-- placing one label-free line in front shifts every address by one -/
+theorem layout_shift {c : SecCtx} {rs : List RLine} (h : Layout c rs 0) (r : RLine) (hr : r.labels = []) :
+    Layout c (r :: rs) 1 := by
+  obtain ⟨hone, hline, hlabel, hlen⟩ := h
+  refine ⟨hone, ?_, ?_, by simp [hlen]; omega⟩
+  · intro p l hl hne
+    obtain ⟨r0, hr0, hm⟩ := hline p l hl hne
+    refine ⟨r0, ?_, hm⟩
+    rw [Nat.add_comm 1, List.getElem?_cons_succ]; simpa using hr0
+  · intro t p v hp hv
+    rw [labelTable_cons_nolabel r rs hr, lookup_shift] at hv
+    cases hv0 : lookup (labelTable rs) t with
+    | none => simp [hv0] at hv
+    | some v0 =>
+      simp only [hv0, Option.map_some, Option.some.injEq] at hv
+      obtain ⟨h1, h2⟩ := hlabel t p v0 hp hv0
+      simp only [Nat.zero_add] at h1
+      exact ⟨by omega, by simp; omega⟩
+
+theorem matchLines_cons {mode : Option IoMode} {l : Line} {ls : List Line} {rs : List RLine}
+    (h : matchLines mode (l :: ls) = .ok rs) :
+    ∃ op args rs', matchLine mode l = some (op, args) ∧ matchLines mode ls = .ok rs' ∧ rs = ⟨l.labels, op, args⟩ :: rs' := by
+  simp only [matchLines] at h
+  cases h1 : matchLine mode l with
+  | none => simp [h1] at h
+  | some p =>
+    obtain ⟨op, args⟩ := p
+    cases h2 : matchLines mode ls with
+    | error e => simp [h1, h2] at h
+    | ok rs' =>
+      simp [h1, h2] at h
+      exact ⟨op, args, rs', rfl, rfl, h.symm⟩
+
+/-- how many ticks the simulator spends before the reference interpreter's first instruction: one
+    (the jump at address 0) exactly when the entry label is not on the first instruction -/
+def entryDelay (ls : List Line) : Nat := if entryFirst ls then 0 else 1
+
+/-- REPAIRED PIPELINE: what `removeEntryFix` + `matchLines` give is a `Layout` with
+    `δ = entryDelay`, and the run theorems' side conditions hold. -/
+theorem layout_fixed {c : SecCtx} {ls'' : List Line} {rs : List RLine} (hre : removeEntryFix c.lines = .ok ls'')
+    (hml : matchLines c.mode ls'' = .ok rs) (hnd : hasDup (allLabels c.lines) = false) :
+    Layout c rs (entryDelay c.lines) ∧
+    ((entryDelay c.lines = 0 ∧ ∀ p, startPos c.lines = some p → addr c.lines p = 0) ∨
+     (entryDelay c.lines = 1 ∧ ∃ s, rs[0]? = some ⟨[], "j", [.sym s]⟩ ∧ startPos c.lines = labelPos c.lines s)) := by
+  unfold removeEntryFix at hre
+  split at hre
+  · rename_i e hfe
+    have hone : (c.lines.filter isEntry).length ≤ 1 := by simp [hfe]
+    have hfind : c.lines.find? isEntry = some e := by
+      rw [← List.head?_filter, hfe]; rfl
+    split at hre
+    · rename_i s hargs
+      split at hre
+      · cases hre
+      · cases hdrop : dropEntry c.lines with
+        | none => simp [hdrop] at hre
+        | some ls' =>
+          simp only [hdrop] at hre
+          have hstart : startPos c.lines = labelPos c.lines s := by
+            unfold startPos; rw [hfind]; simp only [hargs]
+          cases hidx : ls'.findIdx? (fun l => l.labels.contains s) with
+          | none => rw [hidx] at hre; cases hre
+          | some k =>
+            rw [hidx] at hre
+            obtain ⟨hkl, hkt, _⟩ := List.findIdx?_eq_some_iff_getElem.mp hidx
+            have hkt' : s ∈ ls'[k].labels := by simpa [List.contains_iff_mem] using hkt
+            have haddr : ∀ p, startPos c.lines = some p → addr c.lines p = k := by
+              intro p hp
+              rw [hstart] at hp
+              exact label_pos_of_dropped hdrop hone hnd (List.getElem?_eq_getElem hkl) hkt' hp
+            -- the entry label resolves (it is among the section's labels)
+            have hsome : ∃ p, startPos c.lines = some p := by
+              rw [hstart]
+              unfold labelPos
+              cases hq : c.lines.findIdx? (fun l => l.labels.contains s) with
+              | some q => exact ⟨_, rfl⟩
+              | none =>
+                exfalso
+                have hno := List.findIdx?_eq_none_iff.mp hq
+                obtain ⟨_, hpt⟩ := dropEntry_pointwise hdrop hone
+                obtain ⟨l, hF, _, _, hlab⟩ := hpt k _ (List.getElem?_eq_getElem hkl)
+                rcases hlab s hkt' with h | ⟨q', e', hq', _, hte, _⟩
+                · have hm : l ∈ c.lines := (List.mem_filter.mp (List.mem_of_getElem? hF)).1
+                  have := hno l hm
+                  simp [List.contains_iff_mem, h] at this
+                · have := hno e' (List.mem_of_getElem? hq')
+                  simp [List.contains_iff_mem, hte] at this
+            obtain ⟨p0, hp0⟩ := hsome
+            cases k with
+            | zero =>
+              have hre' : (Except.ok ls' : Except Err (List Line)) = Except.ok ls'' := hre
+              injection hre' with hre'; subst hre'
+              have hef : entryFirst c.lines = true := by
+                unfold entryFirst; rw [hp0]; simp [haddr p0 hp0]
+              have hd : entryDelay c.lines = 0 := by simp [entryDelay, hef]
+              rw [hd]
+              exact ⟨layout_dropped hdrop hone hml hnd, Or.inl ⟨rfl, haddr⟩⟩
+            | succ k =>
+              have hre' : (Except.ok ({ op := "j", args := [Arg.sym s] } :: ls') : Except Err (List Line)) = Except.ok ls'' := hre
+              injection hre' with hre'; subst hre'
+              have hef : entryFirst c.lines = false := by
+                unfold entryFirst; rw [hp0]; simp [haddr p0 hp0]
+              have hd : entryDelay c.lines = 1 := by simp [entryDelay, hef]
+              rw [hd]
+              obtain ⟨op, args, rs', hm, hml', rfl⟩ := matchLines_cons hml
+              have hm' : op = "j" ∧ args = [.sym s] := by
+                simp [matchLine] at hm; exact ⟨hm.1.symm, hm.2.symm⟩
+              obtain ⟨rfl, rfl⟩ := hm'
+              exact ⟨layout_shift (layout_dropped hdrop hone hml' hnd) _ rfl, Or.inr ⟨rfl, s, rfl, hstart⟩⟩
+    · cases hre
+  · cases hre
 
 /-! ### from `assemble` to `Assembled` -/
 
@@ -802,15 +1368,12 @@ theorem assemble_cp {src : Source} {fix : Bool} {bm : BM} (h : assemble src fix 
       have := List.any_eq_false.mp hdup sec hsec
       simpa using this
 
-/-- … which is what `Assembled` asks for (unchanged pipeline), given that the real instructions
-    of the section are non-blocking -/
+/-- … which is what `Assembled` asks for: the unchanged pipeline lays the section out with `δ = 0` -/
 theorem assembled_of_assemble {src : Source} {bm : BM} (h : assemble src false = .ok bm) {i : Nat} {c : CpDef} {cp : CP}
     (hc : src.procs[i]? = some c) (hcp : bm.cps[i]? = some cp) :
-    ∃ sec ∈ src.sections, sec.name = c.romcode ∧ ∃ rs, prepSection false src.iomode sec = .ok rs ∧
-      ((∀ r ∈ rs, r.op ≠ "i2rw" ∧ r.op ≠ "r2owa") → Assembled (SecCtx.of src sec) rs cp.arch cp.prog) := by
+    ∃ sec ∈ src.sections, sec.name = c.romcode ∧ ∃ rs, Assembled (SecCtx.of src sec) rs cp.arch cp.prog 0 := by
   obtain ⟨sec, hsec, hname, rs, hprep, hmk, hrs, hnd⟩ := assemble_cp h hc hcp
-  refine ⟨sec, hsec, hname, rs, hprep, ?_⟩
-  intro hasync
+  refine ⟨sec, hsec, hname, rs, ?_⟩
   unfold mkCP at hmk
   cases hws : asmAll (mkArch bm.rsize rs) (resolve rs) with
   | error e => simp [hws] at hmk
@@ -823,6 +1386,120 @@ theorem assembled_of_assemble {src : Source} {bm : BM} (h : assemble src false =
     | error e => simp [hre] at hprep
     | ok ls' =>
       simp only [hre] at hprep
-      exact ⟨⟨ls', hre, hprep⟩, hnd, by simp [SecCtx.of, hrs], hws, hasync⟩
+      exact ⟨layout_unfixed (c := SecCtx.of src sec) hre hprep hnd, by simp [SecCtx.of, hrs], hws⟩
+
+/-- … and the repaired pipeline with `δ = entryDelay`, together with the side conditions of the
+    run theorems -/
+theorem assembled_of_assemble_fix {src : Source} {bm : BM} (h : assemble src true = .ok bm) {i : Nat} {c : CpDef} {cp : CP}
+    (hc : src.procs[i]? = some c) (hcp : bm.cps[i]? = some cp) :
+    ∃ sec ∈ src.sections, sec.name = c.romcode ∧ ∃ rs,
+      Assembled (SecCtx.of src sec) rs cp.arch cp.prog (entryDelay sec.lines) ∧
+      ((entryDelay sec.lines = 0 ∧ ∀ p, startPos sec.lines = some p → addr sec.lines p = 0) ∨
+       (entryDelay sec.lines = 1 ∧ ∃ s, rs[0]? = some ⟨[], "j", [.sym s]⟩ ∧ startPos sec.lines = labelPos sec.lines s)) := by
+  obtain ⟨sec, hsec, hname, rs, hprep, hmk, hrs, hnd⟩ := assemble_cp h hc hcp
+  refine ⟨sec, hsec, hname, rs, ?_⟩
+  unfold mkCP at hmk
+  cases hws : asmAll (mkArch bm.rsize rs) (resolve rs) with
+  | error e => simp [hws] at hmk
+  | ok ws =>
+    simp only [hws, Except.ok.injEq] at hmk
+    subst hmk
+    unfold prepSection at hprep
+    simp only [if_true] at hprep
+    cases hre : removeEntryFix sec.lines with
+    | error e => simp [hre] at hprep
+    | ok ls'' =>
+      simp only [hre] at hprep
+      obtain ⟨hlay, hside⟩ := layout_fixed (c := SecCtx.of src sec) hre hprep hnd
+      exact ⟨⟨hlay, by simp [SecCtx.of, hrs], hws⟩, hside⟩
+
+
+/-! ### several processors -/
+
+theorem netStepFrom_get {net : List (Topology.Bond × Topology.Bond)} {ext : ExtEnv} {hold : Nat → Bool} {all : List RefState} :
+    ∀ (p : Nat) (cs : List SecCtx) (ss ss' : List RefState), cs.length = ss.length →
+      netStepFrom net ext hold all p cs ss = some ss' →
+      ss'.length = ss.length ∧
+      ∀ (i : Nat) (c : SecCtx) (s : RefState), cs[i]? = some c → ss[i]? = some s →
+        ∃ s', ss'[i]? = some s' ∧ (if hold (p + i) then some s else refStep c (envFor net ext all (p + i)) s) = some s'
+  | p, [], [], ss', _, h => by
+    simp [netStepFrom] at h; subst h
+    exact ⟨rfl, fun i c s hc => by simp at hc⟩
+  | p, c :: cs, s :: ss, ss', hlen, h => by
+    simp only [netStepFrom] at h
+    cases h1 : (if hold p then some s else refStep c (envFor net ext all p) s) with
+    | none => simp [h1] at h
+    | some s1 =>
+      cases h2 : netStepFrom net ext hold all (p + 1) cs ss with
+      | none => simp [h1, h2] at h
+      | some rest =>
+        simp [h1, h2] at h; subst h
+        obtain ⟨hl, hget⟩ := netStepFrom_get (p + 1) cs ss rest (by simpa using hlen) h2
+        refine ⟨by simp [hl], ?_⟩
+        intro i c' s' hc hs
+        cases i with
+        | zero =>
+          simp at hc hs; subst hc; subst hs
+          exact ⟨s1, by simp, by simpa using h1⟩
+        | succ i =>
+          obtain ⟨s2, h3, h4⟩ := hget i c' s' (by simpa using hc) (by simpa using hs)
+          exact ⟨s2, by simpa using h3, by rw [show p + (i + 1) = p + 1 + i by omega]; exact h4⟩
+  | p, [], _ :: _, _, hlen, _ => by simp at hlen
+  | p, _ :: _, [], _, hlen, _ => by simp at hlen
+
+theorem initAll_get : ∀ (cs : List SecCtx) (ss : List RefState), initAll cs = some ss →
+    ss.length = cs.length ∧ ∀ (i : Nat) (c : SecCtx), cs[i]? = some c → ∃ s, ss[i]? = some s ∧ refInit c = some s
+  | [], ss, h => by simp [initAll] at h; subst h; exact ⟨rfl, fun i c hc => by simp at hc⟩
+  | c :: cs, ss, h => by
+    simp only [initAll] at h
+    cases h1 : refInit c with
+    | none => simp [h1] at h
+    | some s =>
+      cases h2 : initAll cs with
+      | none => simp [h1, h2] at h
+      | some rest =>
+        simp [h1, h2] at h; subst h
+        obtain ⟨hl, hget⟩ := initAll_get cs rest h2
+        refine ⟨by simp [hl], ?_⟩
+        intro i c' hc
+        cases i with
+        | zero => simp at hc; subst hc; exact ⟨s, by simp, h1⟩
+        | succ i =>
+          obtain ⟨s2, h3, h4⟩ := hget i c' (by simpa using hc)
+          exact ⟨s2, by simpa using h3, h4⟩
+
+/-- COMPOSITION: the run of the whole machine, seen from processor `p`, is a run of the reference
+    interpreter on `p`'s section under the environment the bonds induce — the network reference is
+    nothing more than the per-processor references plus the wiring. -/
+theorem net_component (ctxs : List SecCtx) (net : List (Topology.Bond × Topology.Bond)) (ext : Nat → ExtEnv) :
+    ∀ (t : Nat) (sts : List RefState), netRun ctxs net ext t = some sts →
+      sts.length = ctxs.length ∧
+      ∀ (p : Nat) (c : SecCtx), ctxs[p]? = some c →
+        ∃ s, sts[p]? = some s ∧ refRun c (inducedEnv ctxs net ext p) t = some s := by
+  intro t
+  induction t with
+  | zero =>
+    intro sts h
+    obtain ⟨hl, hget⟩ := initAll_get ctxs sts h
+    exact ⟨hl, fun p c hc => by obtain ⟨s, h1, h2⟩ := hget p c hc; exact ⟨s, h1, h2⟩⟩
+  | succ t ih =>
+    intro sts' h
+    simp only [netRun] at h
+    cases hr : netRun ctxs net ext t with
+    | none => simp [hr] at h
+    | some sts =>
+      simp only [hr, Option.bind_some] at h
+      obtain ⟨hl, hcomp⟩ := ih sts hr
+      obtain ⟨hl', hget⟩ := netStepFrom_get 0 ctxs sts sts' hl.symm h
+      refine ⟨by rw [hl', hl], ?_⟩
+      intro p c hc
+      obtain ⟨s, hs, hrun⟩ := hcomp p c hc
+      obtain ⟨s', h1, h2⟩ := hget p c s hc hs
+      refine ⟨s', h1, ?_⟩
+      simp only [refRun, hrun, Option.bind_some]
+      simp only [Bool.false_eq_true, if_false, Nat.zero_add] at h2
+      simp only [inducedEnv, hr]
+      exact h2
+
 
 end BMV.Basm
